@@ -37,7 +37,7 @@ def lf_cfg(steps, ops, nadd, empty, cdt, cit):
 def lf_configs(tier):
     """histories over ONE long-lived CheckpointControl object (spec/PersistCkptLife.tla): (steps, alphabet, NAdd, AllowEmpty, cdt, cit)"""
     if tier == "thorough":
-        return [(5, LF_ALL, 2, False, 8, 8), (7, LF_IO, 1, False, 8, 8), (5, LF_ALL, 1, False, 4, 4), (4, LF_ALL, 2, True, 8, 8)]
+        return [(5, LF_ALL, 1, False, 8, 8), (7, LF_IO, 1, False, 8, 8), (4, LF_ALL, 2, True, 4, 4)]
     return [(4, LF_ALL, 1, False, 8, 8), (5, LF_IO, 1, False, 8, 8), (3, LF_ALL, 2, True, 4, 4)]
 
 
@@ -90,15 +90,23 @@ def generate(chk, tier):
             f.write(ck_cfg(*a))
         jobs.append(("PersistCkpt", name, "ckpt objs%d..%d dt%d it%d" % a))
     cases = []
+    pool = {}
     try:
         with cf.ThreadPoolExecutor(max_workers=min(len(jobs), 8)) as ex:
-            futs = [(ex.submit(vlib.tlc, mod, cfg, timeout=1700, xmx="3g"), nm) for mod, cfg, nm in jobs]
-            for f, nm in futs:
+            futs = {ex.submit(vlib.tlc, mod, cfg, timeout=1700, xmx="3g"): k for k, (mod, cfg, nm) in enumerate(jobs)}
+            done = {}
+            for f in cf.as_completed(futs):
+                # results are taken as they arrive (the raw TLC output of a large generator run is several 100 MB: dropped at once)
                 r = f.result()
-                chk.add_tlc(r, nm)
                 if r.violation:
-                    chk.model_violation(r, "Persist invariant (%s)" % nm)
-                cases.extend(r.printed)
+                    chk.model_violation(r, "Persist invariant (%s)" % jobs[futs[f]][2])
+                done[futs[f]] = (r, intern_static(r.printed, pool))
+                r.printed = None
+                r.out = ""
+            for k in range(len(jobs)):              # deterministic order: the order of the job list
+                chk.add_tlc(done[k][0], jobs[k][2])
+                cases.extend(done[k][1])
+            done.clear()
     finally:
         for _, cfg, _ in jobs:
             try:
@@ -106,6 +114,18 @@ def generate(chk, tier):
             except OSError:
                 pass
     return cases
+
+
+def intern_static(cs, pool):
+    """the histories of one generator run repeat their static part (object palette with byte layouts, given checkpoints) in every
+    case: share ONE parsed copy between the cases (memory of the thorough tier: several 100000 histories)"""
+    for c in cs:
+        if c.get("part") in ("life", "stream"):
+            for k in ("palette", "ckpts", "given", "ids"):
+                if k in c:
+                    key = (k, json.dumps(c[k], sort_keys=True))
+                    c[k] = pool.setdefault(key, c[k])
+    return cs
 
 
 def has_empty_row(c):
